@@ -53,8 +53,20 @@ SKIP_ATTRS = {'resid', 'PTM_atom', 'modifications', 'modification', 'graph', 'at
 # spec = {'atoms': [[key, resid, ptm, hasModKey, [mod idx], {attr: str|None}]], 'edges': [[u, v]],
 #         'mods': [{'name': str, 'atoms': [[key, ptm, {attr: str|None}, replace|None]], 'edges': [[u, v]]}]}
 
-def build(spec):
-    ff = ForceField(name='c14')
+def midx(mods, g):
+    """index of the modification object `g` in the library of the molecule's own force field; -1 if the object
+    does not belong to it (a modification of another force field)"""
+    for i, m in enumerate(mods):
+        if m is g:
+            return i
+    return -1
+
+
+def build(spec, ff=None, ffname='c14'):
+    if ff is None:
+        ff = ForceField(name=ffname)
+    else:
+        ff.modifications.clear()      # the same ForceField object, its modifications edited between two uses
     mods = []
     for ms in spec['mods']:
         mod = Modification(force_field=ff)
@@ -162,8 +174,9 @@ class NxProxy:
         return getattr(nx, name)
 
 
-def run_real(spec, mods, mol):
-    """Run fix_ptm with wrappers; returns dict(status, iters, records)."""
+def run_real(spec, mods, mol, processor=None, via_system=False):
+    """Run fix_ptm with wrappers; returns dict(status, iters, records).  `processor`: an existing
+    CanonicalizeModifications instance (histories); `via_system`: call run_system on a System holding `mol`."""
     iters = []
     depth = [0]
     top_len = [None]
@@ -197,9 +210,9 @@ def run_real(spec, mods, mol):
             out = orig_identify(residue, residue_ptms, known_ptms, *rest, **kw)
         finally:
             it['unstable'] = any(gm.unstable for _, gm in known_ptms)
-            it['options'] = [(mods.index(g), [sorted(m.items()) for m in gm.placements()]) for g, gm in known_ptms]
+            it['options'] = [(midx(mods, g), [sorted(m.items()) for m in gm.placements()]) for g, gm in known_ptms]
         ncov = top_len[0] or 0
-        entries = [(mods.index(p), sorted(m.items())) for p, m in out]
+        entries = [(midx(mods, p), sorted(m.items())) for p, m in out]
         it['used'] = entries[:len(entries) - ncov]
         it['result'] = entries[len(entries) - ncov:]
         return out
@@ -214,7 +227,15 @@ def run_real(spec, mods, mol):
     RecGM.in_cover = 0
     status = 'ok'
     try:
-        canmod.CanonicalizeModifications().run_molecule(mol)
+        proc = processor if processor is not None else canmod.CanonicalizeModifications()
+        if via_system:
+            system = vermouth.System(force_field=mol.force_field)
+            system.add_molecule(mol)
+            proc.run_system(system)
+            if len(system.molecules) != 1 or system.molecules[0] is not mol:
+                raise AssertionError('run_system replaced the molecule')
+        else:
+            proc.run_molecule(mol)
     except KeyError:
         status = 'crash-keyerror'
     except AssertionError:
@@ -270,7 +291,7 @@ def impl_canon(spec, mods, mol, run, sortmods):
     atoms = []
     for k in sorted(mol.nodes):
         nd = mol.nodes[k]
-        ml = [mods.index(m) for m in nd.get('modifications', [])]
+        ml = [midx(mods, m) for m in nd.get('modifications', [])]
         if sortmods:
             ml = sorted(ml)
         atoms.append([k, int(bool(nd.get('PTM_atom', False))), ml, attrs_list(nd)])
@@ -363,6 +384,40 @@ def exact_cover_exists(nonptm, to_cover, placements):
     return rec(to_cover, frozenset())
 
 
+def explained_by_known(snap, edges, groups, annot, mods):
+    """A group annotated on the input is explained when each annotated modification has an induced placement
+    by atom name inside the group and these placements cover the group; the other groups are explained when an
+    exact cover by induced placements (anchors by name, added atoms by element) exists."""
+    plain = [g for g in groups if not any(annot.get(a) for a in g[0])]
+    noted = [g for g in groups if any(annot.get(a) for a in g[0])]
+    explained = True
+    for g in noted:
+        wanted = []
+        for a in sorted(g[0]):
+            for mi in annot.get(a) or []:
+                if mi not in wanted:
+                    wanted.append(mi)
+        covered = set()
+        for mi in wanted:
+            pls = py_name_placements(snap, edges, g[0], mods[mi])
+            if not pls:
+                explained = False
+            for pl in pls:
+                covered |= set(pl)
+        if covered != set(g[0]):
+            explained = False
+    if explained and plain:
+        nonptm = frozenset(t for t, v in snap.items() if not v[2])
+        tc = set()
+        for g in plain:
+            tc |= g[0] | g[1]
+        allp = []
+        for mod in mods:
+            allp += py_placements(snap, edges, mod)
+        explained = exact_cover_exists(nonptm, tc, [set(p) for p in allp])
+    return explained
+
+
 def oracle(spec, mods, mol0, mol, run):
     errs = []
     flagged = [k for k, r, p, h, ml, at in spec['atoms'] if p]
@@ -371,6 +426,19 @@ def oracle(spec, mods, mol0, mol, run):
             errs.append('fix_ptm raised (%s): flagged atoms %s are neither labelled nor removed with a warning'
                         % (run['status'], flagged[:6]))
         return errs
+    # every modification the run worked with belongs to the force field of the molecule
+    foreign = set()
+    for it in run['iters']:
+        for mi, _ in (it['options'] or []) + (it['used'] or []) + (it['result'] or []):
+            if mi < 0:
+                foreign.add('a candidate / identified modification')
+    for k in mol.nodes:
+        for m in mol.nodes[k].get('modifications', []):
+            if midx(mods, m) < 0:
+                foreign.add('label %s on atom %d' % (getattr(m, 'name', '?'), k))
+    if foreign:
+        return ['a modification that the force field of the molecule does not know was used: %s (known: %s)'
+                % (sorted(foreign)[:3], [m.name for m in mods])]
     warns = warnings_of(run)
     for w in warns:
         if w['type'] != 'unknown-input' or not w['name'].startswith('vermouth'):
@@ -487,37 +555,9 @@ def oracle(spec, mods, mol0, mol, run):
     for ii, it in enumerate(run['iters']):
         if it['result'] is not None:
             continue
-        snap = it['snap']
-        if any(a not in snap for g in it['groups'] for a in g[0]):
+        if any(a not in it['snap'] for g in it['groups'] for a in g[0]):
             continue  # an atom with a foreign resid: outside the residue, nothing can be placed on it
-        plain = [g for g in it['groups'] if not any(annot.get(a) for a in g[0])]
-        noted = [g for g in it['groups'] if any(annot.get(a) for a in g[0])]
-        explained = True
-        for g in noted:
-            wanted = []
-            for a in sorted(g[0]):
-                for mi in annot.get(a) or []:
-                    if mi not in wanted:
-                        wanted.append(mi)
-            covered = set()
-            for mi in wanted:
-                pls = py_name_placements(snap, it['edges'], g[0], mods[mi])
-                if not pls:
-                    explained = False
-                for pl in pls:
-                    covered |= set(pl)
-            if covered != set(g[0]):
-                explained = False
-        if explained and plain:
-            nonptm = frozenset(t for t, v in snap.items() if not v[2])
-            tc = set()
-            for g in plain:
-                tc |= g[0] | g[1]
-            allp = []
-            for mod in mods:
-                allp += py_placements(snap, it['edges'], mod)
-            explained = exact_cover_exists(nonptm, tc, [set(p) for p in allp])
-        if explained:
+        if explained_by_known(it['snap'], it['edges'], it['groups'], annot, mods):
             errs.append('atoms %s were removed / reported as unknown input although known modifications cover '
                         'them exactly' % sorted(a for g in it['groups'] for a in g[0]))
     # an atom the residue template accounted for is never removed
@@ -1132,6 +1172,65 @@ for j, (cid, spec, mods, mol0, mol, run) in enumerate(meta):
     chk.case(cid + '-groups', lines[2 * j + 1], impls[2 * j + 1], models[2 * j + 1], [], nflag >= 2)
 
 # ----------------------------------------------------------------------------
+# processor histories: ONE CanonicalizeModifications instance processes 2-3 molecules whose force fields are
+# different objects with equal or different names and different modification sets, or the same object with its
+# modifications edited in between; run_molecule and run_system.  Every step is compared with the model (Lean
+# `Proc.runHistory`, theorem processor_stateless), with a fresh processor on a copy, and judged by the oracle.
+# ----------------------------------------------------------------------------
+def history_job(spec, given, sortmods):
+    atoms = [[k, r, int(bool(p_)), int(bool(h)), list(ml), sorted([a, v] for a, v in at.items())]
+             for k, r, p_, h, ml, at in spec['atoms']]
+    mods_l = [[m['name'],
+               [[k, int(bool(p_)), sorted([a, v] for a, v in at.items()),
+                 None if rp is None else [[a, v] for a, v in rp.items()]] for k, p_, at, rp in m['atoms']],
+               [list(e) for e in m['edges']]] for m in spec['mods']]
+    return [atoms, [list(e) for e in spec['edges']], mods_l, given, sortmods]
+
+
+rng7 = chk.rng('histories')
+hl, hi, hm = [], [], []
+for i in range(N // 12):
+    proc = canmod.CanonicalizeModifications()
+    nstep = rng7.choice([2, 2, 3])
+    naming = rng7.choice(['same-name', 'same-name', 'different-names', 'same-object-edited'])
+    ff_prev = None
+    jobs, impls, errs_all = [], [], []
+    for st in range(nstep):
+        spec = rng7.choice([gen_case, gen_two_iter, gen_annot, gen_standin])(rng7)
+        ffname = 'c14' if naming != 'different-names' else 'c14_%d' % st
+        ff, mods, mol = build(spec, ff=ff_prev if naming == 'same-object-edited' else None, ffname=ffname)
+        if naming == 'same-object-edited':
+            ff_prev = ff
+        mol0 = mol.copy()
+        # the same molecule through a fresh processor
+        ff2, mods2, mol_fresh = build(spec, ffname=ffname)
+        run_fresh = run_real(spec, mods2, mol_fresh)
+        via_system = rng7.random() < 0.4
+        run = run_real(spec, mods, mol, processor=proc, via_system=via_system)
+        given = [[[[list(q) for q in p_] for p_ in pls] for _, pls in it['options']] for it in run['iters']]
+        sortmods = int(any(len(it['used'] or []) >= 2 for it in run['iters'])
+                       or sum(1 for it in run['iters'] if it['used']) >= 1 and any(
+                           len([g for g in it['groups'] if any(spec_mods_of(spec, a) for a in g[0])]) >= 2
+                           for it in run['iters']))
+        jobs.append(history_job(spec, given, sortmods))
+        impl = impl_canon(spec, mods, mol, run, sortmods)
+        impls.append(impl)
+        errs = oracle(spec, mods, mol0, mol, run)
+        fresh = impl_canon(spec, mods2, mol_fresh, run_fresh, sortmods)
+        if fresh != impl:
+            errs.append('step %d of a history on one processor instance differs from a fresh processor on the same '
+                        'molecule (force field named %r, modifications %s)' % (st, ffname, [m.name for m in mods]))
+        errs_all += ['step %d: %s' % (st, e) for e in errs]
+        chk.count('history_step_' + ('run_system' if via_system else 'run_molecule'))
+    chk.count('history_' + naming)
+    hl.append(line('history', jobs))
+    hi.append(' || '.join(impls))
+    hm.append(errs_all)
+hmodels = chk.drv.ask(hl) if chk.lean_ok else [None] * len(hl)
+for i in range(len(hl)):
+    chk.case('history-%d' % i, hl[i], hi[i], hmodels[i], hm[i], True)
+
+# ----------------------------------------------------------------------------
 # identify_ptms called directly (the way the test-suite and other callers use it): `annotated=None`, the
 # modifications already known are read from the nodes of the residue.  The whole molecule is the residue.
 # ----------------------------------------------------------------------------
@@ -1185,20 +1284,36 @@ def run_identify_direct(spec):
     impl = enc([mods.index(g) for g, _ in options]) + ' 1 ' + res
     # independent statement: a returned cover contains every atom of every group; KeyError leaves the molecule alone
     errs = []
+    snap = {k: (at.get('atomname'), at.get('element'), bool(p_)) for k, r, p_, h, ml, at in spec['atoms']}
+    sedges = sorted(tuple(sorted(e)) for e in mol.edges)
+    annot = {k: ml for k, r, p_, h, ml, at in spec['atoms']}
+    ogroups = [(set(a), set(b)) for a, b in groups]
     if res.startswith('ok'):
-        covered = {a for _, m in out for a in m}
-        for a, _ in ptms:
-            if not set(a) <= covered and set(a):
-                pass   # (sets emptied in place are not observable here; checked through fix_ptm)
+        ncov = top_len[0] or 0
         for p_, m in out:
-            if set(m.values()) != set(p_.nodes):
-                errs.append('identify_ptms returned a placement of %s that does not map every node' % p_.name)
+            if set(m.values()) != set(p_.nodes) or len(set(m)) != len(m):
+                errs.append('identify_ptms returned a placement of %s that does not map every node once' % p_.name)
+        for p_, m in out[len(out) - ncov:]:
+            if not any(c == m for c in py_placements(snap, sedges, p_)):
+                errs.append('identify_ptms chose a placement of %s on %s that is not induced with anchors by name and '
+                            'added atoms by element' % (p_.name, sorted(m)))
+        for a, b in ogroups:
+            for x in a:
+                n_in = sum(1 for _, m in out if x in m)
+                if n_in == 0:
+                    errs.append('identify_ptms returned a cover that leaves atom %d of a group out' % x)
+                elif n_in > 1 and snap[x][2] and not any(annot.get(y) for y in a):
+                    errs.append('identify_ptms covered the flagged atom %d %d times' % (x, n_in))
+    elif res.startswith('keyerror'):
+        if explained_by_known(snap, sedges, ogroups, annot, mods):
+            errs.append('identify_ptms raised KeyError although known modifications explain the groups %s'
+                        % [sorted(a) for a, _ in ogroups])
     return ln, impl, errs, groups, res
 
 
 rng6 = chk.rng('identify-direct')
 dl, di, dm = [], [], []
-for i in range(N // 4):
+for i in range(N // 6):
     gen = [gen_annot, gen_annot, gen_case, gen_standin, gen_two_iter][i % 5]
     spec = gen(rng6)
     ln, impl, errs, groups, res = run_identify_direct(spec)
